@@ -558,8 +558,9 @@ impl<'a> Gen<'a> {
                 }
             }
             21 => {
-                // fill the buffer and a bit more
-                let n = (self.cmd_cap + 3).min(70);
+                // fill the buffer and a bit more (long lines - beyond 255 bytes - only now and then)
+                let limit = if self.rng.chance(1, 4) { 600 } else { 70 };
+                let n = (self.cmd_cap + 3).min(limit);
                 for _ in 0..n {
                     if self.rng.chance(1, 4) {
                         let c = *self.rng.pick(MULTI);
